@@ -1,6 +1,4 @@
 import Hub.Lemmas.IdxTbl
-import Mathlib.Tactic.SplitIfs
-import Aesop
 /-
 `CountInv` (Hub/Model/Inv.lean) is preserved by every message handler, every hook piece, `deliver`,
 `beginBlock`, `endBlock`, `gov`, hence by every `step`; it holds in every genesis state; hence in
@@ -196,52 +194,68 @@ theorem setNode_cview {s s' : State} {n : Node} (h : setNode s n = .ok s') : cvi
   unfold setNode at h
   split at h <;> simp only [pure_eq_ok, gopanic_ne_ok] at h <;> (try subst h) <;> rfl
 
-theorem provRegister_count {s s' : State} {frm : Addr} {n i w d : Bytes} (h : provRegister s frm n i w d = .ok s')
-    (hi : CountInv s) : CountInv s' := by
+theorem provRegister_cview {s s' : State} {frm : Addr} {n i w d : Bytes} (h : provRegister s frm n i w d = .ok s') :
+    cview s' = cview s := by
   unfold provRegister at h
   simp only [bind_eq_ok, pure_eq_ok, require_eq_ok] at h
   obtain ⟨_, _, s1, h1, s2, h2, rfl⟩ := h
-  exact CountInv.of_view (s := s1) (by rw [← setProvider_cview h2]; rfl) (CountInv.of_mframe (fundCommunityPool_mframe h1) hi)
+  rw [cview_emit, setProvider_cview h2, cview_of_mframe (fundCommunityPool_mframe h1)]
 
-theorem provUpdate_count {s s' : State} {frm : Addr} {n i w d : Bytes} {st : Status} (h : provUpdate s frm n i w d st = .ok s')
-    (hi : CountInv s) : CountInv s' := by
+theorem provUpdate_cview {s s' : State} {frm : Addr} {n i w d : Bytes} {st : Status} (h : provUpdate s frm n i w d st = .ok s') :
+    cview s' = cview s := by
   unfold provUpdate at h
   simp only [bind_eq_ok, pure_eq_ok, orReject_eq_ok] at h
   obtain ⟨p, _, s3, h3, rfl⟩ := h
-  refine CountInv.of_view (s := s) ?_ hi
   rw [cview_emit, setProvider_cview h3]
   split <;> split <;> rfl
 
-theorem nodeRegister_count {s s' : State} {frm : Addr} {gb hr : Coins} {url : Bytes} (h : nodeRegister s frm gb hr url = .ok s')
-    (hi : CountInv s) : CountInv s' := by
+theorem nodeRegister_cview {s s' : State} {frm : Addr} {gb hr : Coins} {url : Bytes} (h : nodeRegister s frm gb hr url = .ok s') :
+    cview s' = cview s := by
   unfold nodeRegister at h
   simp only [bind_eq_ok, pure_eq_ok, require_eq_ok] at h
   obtain ⟨_, _, _, _, _, _, s1, h1, s2, h2, rfl⟩ := h
-  exact CountInv.of_view (s := s1) (by rw [← setNode_cview h2]; rfl) (CountInv.of_mframe (fundCommunityPool_mframe h1) hi)
+  rw [cview_emit, setNode_cview h2, cview_of_mframe (fundCommunityPool_mframe h1)]
 
-theorem nodeUpdate_count {s s' : State} {frm : Addr} {gb hr : Option Coins} {url : Bytes} (h : nodeUpdate s frm gb hr url = .ok s')
-    (hi : CountInv s) : CountInv s' := by
+theorem nodeUpdate_cview {s s' : State} {frm : Addr} {gb hr : Option Coins} {url : Bytes} (h : nodeUpdate s frm gb hr url = .ok s') :
+    cview s' = cview s := by
   unfold nodeUpdate at h
   simp only [bind_eq_ok, pure_eq_ok, require_eq_ok, orReject_eq_ok] at h
   obtain ⟨_, _, _, _, n, _, s1, h1, rfl⟩ := h
-  exact CountInv.of_view (s := s) (by rw [← setNode_cview h1]; rfl) hi
+  rw [cview_emit, setNode_cview h1]
 
-theorem nodeStatus_count {s s' : State} {frm : Addr} {st : Status} (h : nodeStatus s frm st = .ok s')
-    (hi : CountInv s) : CountInv s' := by
+theorem nodeStatus_cview {s s' : State} {frm : Addr} {st : Status} (h : nodeStatus s frm st = .ok s') :
+    cview s' = cview s := by
   unfold nodeStatus at h
   simp only [bind_eq_ok, pure_eq_ok, orReject_eq_ok] at h
   obtain ⟨n, _, s5, h5, rfl⟩ := h
-  refine CountInv.of_view (s := s) ?_ hi
   rw [cview_emit, setNode_cview h5]
   split <;> split <;> split <;> split <;> rfl
 
-theorem swap_count {s s' : State} {frm recv : Addr} {hash : Bytes} {amt : Int}
-    (h : swap s frm hash recv amt = .ok s') (hi : CountInv s) : CountInv s' := by
+theorem swap_cview {s s' : State} {frm recv : Addr} {hash : Bytes} {amt : Int}
+    (h : swap s frm hash recv amt = .ok s') : cview s' = cview s := by
   unfold swap at h
   simp only [bind_eq_ok, pure_eq_ok, require_eq_ok] at h
   obtain ⟨_, _, _, _, _, _, q, _, coin, _, s1, h1, s2, h2, rfl⟩ := h
-  exact CountInv.of_view (s := s2) rfl
-    (CountInv.of_mframe ((mintCoins_mframe h1).trans (sendModuleToAccount_mframe h2)) hi)
+  have e2 : cview s2 = cview s := cview_of_mframe ((mintCoins_mframe h1).trans (sendModuleToAccount_mframe h2))
+  rw [← e2]; rfl
+
+theorem provRegister_count {s s' : State} {frm : Addr} {n i w d : Bytes} (h : provRegister s frm n i w d = .ok s')
+    (hi : CountInv s) : CountInv s' := CountInv.of_view (provRegister_cview h) hi
+
+theorem provUpdate_count {s s' : State} {frm : Addr} {n i w d : Bytes} {st : Status} (h : provUpdate s frm n i w d st = .ok s')
+    (hi : CountInv s) : CountInv s' := CountInv.of_view (provUpdate_cview h) hi
+
+theorem nodeRegister_count {s s' : State} {frm : Addr} {gb hr : Coins} {url : Bytes} (h : nodeRegister s frm gb hr url = .ok s')
+    (hi : CountInv s) : CountInv s' := CountInv.of_view (nodeRegister_cview h) hi
+
+theorem nodeUpdate_count {s s' : State} {frm : Addr} {gb hr : Option Coins} {url : Bytes} (h : nodeUpdate s frm gb hr url = .ok s')
+    (hi : CountInv s) : CountInv s' := CountInv.of_view (nodeUpdate_cview h) hi
+
+theorem nodeStatus_count {s s' : State} {frm : Addr} {st : Status} (h : nodeStatus s frm st = .ok s')
+    (hi : CountInv s) : CountInv s' := CountInv.of_view (nodeStatus_cview h) hi
+
+theorem swap_count {s s' : State} {frm recv : Addr} {hash : Bytes} {amt : Int}
+    (h : swap s frm hash recv amt = .ok s') (hi : CountInv s) : CountInv s' := CountInv.of_view (swap_cview h) hi
 
 /-! ### building blocks -/
 
@@ -624,5 +638,338 @@ theorem sessEnd_count {s s' : State} {frm : Addr} {id : Nat} (h : sessEnd s frm 
   simp only [bind_eq_ok, pure_eq_ok, require_eq_ok, orReject_eq_ok] at h
   obtain ⟨x, hx, _, _, _, _, rfl⟩ := h
   exact sessionToPending_count (sessP_of_get hi hx) hi
+
+/-! ### begin-block hooks -/
+
+theorem cview_mintBeginBlock_go (l : List Inflation) (s : State) : cview (mintBeginBlock.go s l) = cview s := by
+  induction l generalizing s with
+  | nil => rfl
+  | cons item rest ih =>
+    unfold mintBeginBlock.go
+    split
+    · rfl
+    · rw [ih]; rfl
+
+theorem mintBeginBlock_count (s : State) (hi : CountInv s) : CountInv (mintBeginBlock s) :=
+  CountInv.of_view (cview_mintBeginBlock_go _ s) hi
+
+theorem distrSweep_count (s : State) (hi : CountInv s) : CountInv (distrSweep s) :=
+  CountInv.of_mframe (distrSweep_mframe s) hi
+
+theorem payoutAdvance_id (p : Payout) : (payoutAdvance p).id = p.id := by
+  unfold payoutAdvance; simp only; split <;> rfl
+
+theorem payoutStep_count {s s' : State} {k : Time × Nat} (h : payoutStep s k = .ok s') (hi : CountInv s) : CountInv s' := by
+  unfold payoutStep at h
+  simp only [bind_eq_ok, pure_eq_ok, requireP_eq_ok, orPanic_eq_ok] at h
+  obtain ⟨item, hitem, reward, _, s2, h2, payAmt, _, _, _, s3, h3, rfl⟩ := h
+  have hp := payP_of_get hi hitem
+  have i1 : CountInv { s with payQ := s.payQ.erase (item.nextAt, item.id) } := by
+    rw [countInv_iff] at hi ⊢
+    constructor
+    case payQ => exact hi.payQ.erase
+    count_rest hi
+  have f3 := (sendCoinFromDepositToModule_mframe h2).trans (sendCoinFromDepositToAccount_mframe h3)
+  have i3 := CountInv.of_mframe f3 i1
+  have e3 : s3.subCount = s.subCount := (subCount_of_mframe f3).trans rfl
+  have hp' : PayP (s3.subCount.getD 0) (payoutAdvance item).id (payoutAdvance item) := by
+    rw [e3]; exact ⟨rfl, by rw [payoutAdvance_id]; exact hp.2.1, by rw [payoutAdvance_id]; exact hp.2.2⟩
+  rw [countInv_iff] at i3 ⊢
+  split <;>
+  · constructor
+    case payouts => exact i3.payouts.set hp'
+    case payQ => first | exact i3.payQ | exact i3.payQ.set hp'.2.2
+    count_rest i3
+
+/-! ### end-block hooks -/
+
+theorem nodeSweep_cview {s s' : State} (h : nodeSweep s = .ok s') : cview s' = cview s := by
+  unfold nodeSweep at h
+  split at h
+  · rw [pure_eq_ok] at h; rw [h]
+  · refine foldlM_inv (fun t => cview t = cview s) _ ?_ _ s s' h rfl
+    intro s0 a s1 h1 hp
+    simp only [bind_eq_ok, pure_eq_ok, orPanic_eq_ok] at h1
+    obtain ⟨item, _, s2, h2, rfl⟩ := h1
+    rw [cview_emit, setNode_cview h2]; exact hp
+
+theorem nodeSweep_count {s s' : State} (h : nodeSweep s = .ok s') (hi : CountInv s) : CountInv s' :=
+  CountInv.of_view (nodeSweep_cview h) hi
+
+theorem nodeExpireStep_cview {s s' : State} {k : Time × Addr} (h : nodeExpireStep s k = .ok s') : cview s' = cview s := by
+  unfold nodeExpireStep at h
+  simp only [bind_eq_ok, pure_eq_ok, orPanic_eq_ok] at h
+  obtain ⟨item, _, s3, h3, rfl⟩ := h
+  rw [cview_emit, setNode_cview h3]; rfl
+
+theorem nodeExpireStep_count {s s' : State} {k : Time × Addr} (h : nodeExpireStep s k = .ok s') (hi : CountInv s) :
+    CountInv s' := CountInv.of_view (nodeExpireStep_cview h) hi
+
+theorem settleSession_mframe {s s' : State} {x : Session} {acc node : Addr} {dep : Coin} {gb b a : Int}
+    (h : settleSession s x acc node dep gb b a = .ok s') : MFrame s s' := by
+  unfold settleSession at h
+  simp only [bind_eq_ok, pure_eq_ok, requireP_eq_ok] at h
+  obtain ⟨price, _, prev, _, cur, _, payAmt, _, payment, _, reward, _, s1, h1, netAmt, _, _, _, s2, h2, rfl⟩ := h
+  exact ((sendCoinFromDepositToModule_mframe h1).trans (sendCoinFromDepositToAccount_mframe h2)).trans (MFrame.emit _ _)
+
+theorem settleSession_count {s s' : State} {x : Session} {acc node : Addr} {dep : Coin} {gb b a : Int}
+    (h : settleSession s x acc node dep gb b a = .ok s') (hi : CountInv s) : CountInv s' :=
+  CountInv.of_mframe (settleSession_mframe h) hi
+
+theorem sessionInactiveHook_count {s s' : State} {id : Nat} {acc node : Addr} {bytes : Int}
+    (h : sessionInactiveHook s id acc node bytes = .ok s') (hi : CountInv s) : CountInv s' := by
+  unfold sessionInactiveHook at h
+  simp only [bind_eq_ok, require_eq_ok, orReject_eq_ok] at h
+  obtain ⟨x, _, _, _, sub, _, h⟩ := h
+  split at h
+  · rw [pure_eq_ok] at h; rw [← h]; exact hi
+  · simp only [bind_eq_ok, orReject_eq_ok] at h
+    obtain ⟨a, ha, used, _, h⟩ := h
+    have hal := hi.allocs sub.id acc a ha
+    have i1 : CountInv (emit (setAllocation s (allocAfterUse a used)) (evAllocate (allocAfterUse a used))) := by
+      refine emit_count _ (setAllocation_count ?_ ?_ hi)
+      · show 1 ≤ a.id; rw [hal.1]; exact hal.2.2.1
+      · show a.id ≤ _; rw [hal.1]; exact hal.2.2.2
+    split at h
+    · exact settleSession_count h i1
+    · rw [pure_eq_ok] at h; rw [← h]; exact i1
+
+theorem removeSession_count {s : State} {item : Session} (hi : CountInv s) : CountInv (removeSession s item) := by
+  refine emit_count _ ?_
+  rw [countInv_iff] at hi ⊢
+  constructor
+  case sessions => exact hi.sessions.erase
+  case sessForAcc => exact hi.sessForAcc.erase
+  case sessForNode => exact hi.sessForNode.erase
+  case sessForSub => exact hi.sessForSub.erase
+  case sessForAlloc => exact hi.sessForAlloc.erase
+  count_rest hi
+
+theorem sessionStep_count {s s' : State} {k : Time × Nat} (h : sessionStep s k = .ok s') (hi : CountInv s) : CountInv s' := by
+  unfold sessionStep at h
+  simp only [bind_eq_ok, orPanic_eq_ok] at h
+  obtain ⟨item, hitem, h⟩ := h
+  split at h
+  · rw [pure_eq_ok] at h; rw [← h]; exact sessionToPending_count (sessP_of_get hi hitem) hi
+  · simp only [bind_eq_ok, pure_eq_ok, panicIfErr_eq_ok] at h
+    obtain ⟨bytes, _, s2, h2, rfl⟩ := h
+    have i1 : CountInv { s with sessQ := s.sessQ.erase (item.inactiveAt, item.id) } := by
+      rw [countInv_iff] at hi ⊢
+      constructor
+      case sessQ => exact hi.sessQ.erase
+      count_rest hi
+    exact removeSession_count (sessionInactiveHook_count h2 i1)
+
+theorem refundSub_mframe {s s' : State} {item : Sub} (h : refundSub s item = .ok s') : MFrame s s' := by
+  unfold refundSub at h
+  split at h
+  · simp only [bind_eq_ok] at h
+    obtain ⟨s1, h1, h2⟩ := h
+    have f1 : MFrame s s1 := by
+      split at h1
+      · unfold refundGB at h1
+        simp only [bind_eq_ok, pure_eq_ok, orPanic_eq_ok, panicIfErr_eq_ok] at h1
+        obtain ⟨price, _, a, _, paid, _, ra, _, refund, _, s2, h2', rfl⟩ := h1
+        exact (subtractDeposit_mframe h2').trans (MFrame.emit _ _)
+      · rw [pure_eq_ok] at h1; rw [← h1]; exact MFrame.refl s
+    split at h2
+    · unfold refundHr at h2
+      simp only [bind_eq_ok, pure_eq_ok, orPanic_eq_ok, panicIfErr_eq_ok] at h2
+      obtain ⟨p, _, ra, _, refund, _, s2, h2', rfl⟩ := h2
+      exact f1.trans ((subtractDeposit_mframe h2').trans (MFrame.emit _ _))
+    · rw [pure_eq_ok] at h2; rw [← h2]; exact f1
+  · rw [pure_eq_ok] at h; rw [← h]; exact MFrame.refl s
+
+theorem refundSub_count {s s' : State} {item : Sub} (h : refundSub s item = .ok s') (hi : CountInv s) : CountInv s' :=
+  CountInv.of_mframe (refundSub_mframe h) hi
+
+theorem removeAllocs_count (l : List Addr) (s : State) (id : Nat) (hi : CountInv s) : CountInv (removeAllocs s id l) := by
+  unfold removeAllocs
+  refine foldl_inv CountInv _ ?_ l s hi
+  intro s0 a h0
+  rw [countInv_iff] at h0 ⊢
+  constructor
+  case allocs => exact h0.allocs.erase
+  case subForAcc => exact h0.subForAcc.erase
+  count_rest h0
+
+theorem removeSubRecords_count {s : State} {item : Sub} (hi : CountInv s) : CountInv (removeSubRecords s item) := by
+  unfold removeSubRecords
+  cases item.kind with
+  | node n g h d =>
+    refine emit_count _ ?_
+    rw [countInv_iff] at hi ⊢
+    constructor
+    case subs => exact hi.subs.erase
+    case subForNode => exact hi.subForNode.erase
+    case allocs => exact hi.allocs.erase
+    case subForAcc => exact hi.subForAcc.erase
+    count_rest hi
+  | plan pid dn =>
+    refine emit_count _ ?_
+    have i1 : CountInv { s with subForPlan := s.subForPlan.erase (pid, item.id) } := by
+      rw [countInv_iff] at hi ⊢
+      constructor
+      case subForPlan => exact hi.subForPlan.erase
+      count_rest hi
+    have i2 := removeAllocs_count (allocAddrsForSub { s with subForPlan := s.subForPlan.erase (pid, item.id) } item.id) _ item.id i1
+    rw [countInv_iff] at i2 ⊢
+    constructor
+    case subs => exact i2.subs.erase
+    count_rest i2
+
+theorem removePayout_count {s s' : State} {item : Sub} (h : removePayout s item = .ok s') (hi : CountInv s) : CountInv s' := by
+  unfold removePayout at h
+  split at h
+  · simp only [bind_eq_ok, pure_eq_ok, orPanic_eq_ok] at h
+    obtain ⟨p, _, rfl⟩ := h
+    rw [countInv_iff] at hi ⊢
+    constructor
+    case payouts => exact hi.payouts.erase
+    case payForAcc => exact hi.payForAcc.erase
+    case payForNode => exact hi.payForNode.erase
+    count_rest hi
+  · rw [pure_eq_ok] at h; rw [← h]; exact hi
+
+theorem subscriptionStep_count {s s' : State} {d : Dur} {k : Time × Nat} (h : subscriptionStep d s k = .ok s')
+    (hi : CountInv s) : CountInv s' := by
+  unfold subscriptionStep at h
+  simp only [bind_eq_ok, orPanic_eq_ok] at h
+  obtain ⟨item, hitem, h⟩ := h
+  have i1 : CountInv { s with subQ := s.subQ.erase (item.inactiveAt, item.id) } := by
+    rw [countInv_iff] at hi ⊢
+    constructor
+    case subQ => exact hi.subQ.erase
+    count_rest hi
+  split at h
+  · simp only [bind_eq_ok, panicIfErr_eq_ok] at h
+    obtain ⟨s2, h2, h3⟩ := h
+    have i2 := subscriptionInactivePendingHook_count h2 i1
+    have e2 : s2.subCount = s.subCount := (subscriptionInactivePendingHook_subCount h2).trans rfl
+    have hs : SubP (s2.subCount.getD 0) item.id item := by rw [e2]; exact subP_of_get hi hitem
+    exact detachPayout_count h3 (subToPending_count hs i2)
+  · simp only [bind_eq_ok] at h
+    obtain ⟨s2, h2, h3⟩ := h
+    exact removePayout_count h3 (removeSubRecords_count (refundSub_count h2 i1))
+
+/-! ### whole operations -/
+
+theorem handle_count {s s' : State} {m : Msg} (h : m.handle s = .ok s') (hi : CountInv s) : CountInv s' := by
+  cases m <;> simp only [Msg.handle] at h
+  case provRegister => exact provRegister_count h hi
+  case provUpdate => exact provUpdate_count h hi
+  case nodeRegister => exact nodeRegister_count h hi
+  case nodeUpdate => exact nodeUpdate_count h hi
+  case nodeStatus => exact nodeStatus_count h hi
+  case nodeSubscribe => exact nodeSubscribe_count h hi
+  case planCreate => exact planCreate_count h hi
+  case planStatus => exact planStatus_count h hi
+  case planLink => exact planLink_count h hi
+  case planUnlink => exact planUnlink_count h hi
+  case planSubscribe => exact planSubscribe_count h hi
+  case subCancel => exact subCancel_count h hi
+  case subAllocate => exact subAllocate_count h hi
+  case sessStart => exact sessStart_count h hi
+  case sessUpdate => exact sessUpdate_count h hi
+  case sessEnd => exact sessEnd_count h hi
+  case swap => exact swap_count h hi
+
+/-- A delivered message — accepted or rejected — keeps the invariant. -/
+theorem deliver_count (s : State) (m : Msg) (hi : CountInv s) : CountInv (deliver s m).1 := by
+  have h0 : CountInv { s with events := [] } := CountInv.of_view (s := s) rfl hi
+  unfold deliver
+  simp only []
+  cases hr : (do m.validateBasic; m.handle { s with events := [] } : M State) with
+  | ok s' =>
+    simp only [bind_eq_ok] at hr
+    obtain ⟨_, _, hh⟩ := hr
+    exact handle_count hh h0
+  | error e => cases e <;> exact h0
+
+theorem beginBlock_count {s s' : State} {t : Time} (h : beginBlock s t = .ok s') (hi : CountInv s) : CountInv s' := by
+  unfold beginBlock haltOf at h
+  split at h <;> try contradiction
+  rename_i s'' hs
+  simp only [Except.ok.injEq] at h
+  subst h
+  unfold subscriptionBeginBlock at hs
+  refine foldlM_inv CountInv _ ?_ _ _ _ hs ?_
+  · intro s0 k s1 h1 hp
+    rw [panicIfErr_eq_ok] at h1
+    exact payoutStep_count h1 hp
+  · exact distrSweep_count _ (mintBeginBlock_count _ (CountInv.of_view (s := s) rfl hi))
+
+theorem endBlock_count {s s' : State} (h : endBlock s = .ok s') (hi : CountInv s) : CountInv s' := by
+  unfold endBlock haltOf at h
+  split at h <;> try contradiction
+  rename_i s2 hs
+  split at hs <;> try contradiction
+  rename_i s3 hs3
+  simp only [Except.ok.injEq] at hs h
+  subst hs; subst h
+  unfold vpnEndBlock nodeEndBlock at hs3
+  simp only [bind_eq_ok] at hs3
+  obtain ⟨s1, ⟨sa, ha, hb⟩, sb, hc, hd⟩ := hs3
+  have i0 : CountInv sa := nodeSweep_count ha (CountInv.of_view (s := s) rfl hi)
+  have i1 : CountInv s1 := foldlM_inv CountInv _ (fun s0 k s1 h1 hp => nodeExpireStep_count h1 hp) _ _ _ hb i0
+  have i2 : CountInv sb := foldlM_inv CountInv _ (fun s0 k s1 h1 hp => sessionStep_count h1 hp) _ _ _ hc i1
+  have i3 : CountInv s3 := foldlM_inv CountInv _ (fun s0 k s1 h1 hp => subscriptionStep_count h1 hp) _ _ _ hd i2
+  exact CountInv.of_view (s := s3) rfl i3
+
+theorem gov_cview {s s' : State} {c : ParamChange} (hg : gov s c = some s') : cview s' = cview s := by
+  unfold gov at hg
+  cases c <;> simp only [] at hg <;> (try split at hg) <;>
+    first
+      | (simp only [Option.some.injEq] at hg; rw [← hg]; rfl)
+      | (simp only [reduceCtorEq] at hg)
+
+theorem gov_count (s : State) (c : ParamChange) (hi : CountInv s) : CountInv ((gov s c).getD s) := by
+  cases hg : gov s c with
+  | none => exact hi
+  | some s' => exact CountInv.of_view (gov_cview hg) hi
+
+theorem step_count {s s' : State} {op : Op} (h : step s op = some s') (hi : CountInv s) : CountInv s' := by
+  cases op with
+  | tx m =>
+    simp only [step, Option.some.injEq] at h
+    rw [← h]; exact deliver_count s m hi
+  | begin t =>
+    simp only [step] at h
+    split at h
+    · rename_i s1 hb
+      simp only [Option.some.injEq] at h; rw [← h]; exact beginBlock_count hb hi
+    · contradiction
+  | endB =>
+    simp only [step] at h
+    split at h
+    · rename_i s1 hb
+      simp only [Option.some.injEq] at h; rw [← h]; exact endBlock_count hb hi
+    · contradiction
+  | gov c =>
+    simp only [step, Option.some.injEq] at h
+    rw [← h]; exact gov_count s c hi
+
+theorem genesis_base_count (g : Genesis) : CountInv g.base := by
+  rw [countInv_iff]
+  constructor <;> exact Tbl.All.nil _
+
+theorem genesis_count (g : Genesis) : CountInv g.state :=
+  CountInv.of_mframe (genesis_mframe g) (genesis_base_count g)
+
+/-- `CountInv` holds after every operation of every history from a state that satisfies it. -/
+theorem count_all_histories (ops : List Op) (s : State) (hi : CountInv s) : ∀ s' ∈ runTrace s ops, CountInv s' := by
+  induction ops generalizing s with
+  | nil => intro s' h; simp [runTrace] at h
+  | cons op rest ih =>
+    intro s' h
+    simp only [runTrace] at h
+    cases hst : step s op with
+    | none => simp [hst] at h
+    | some s1 =>
+      simp only [hst, List.mem_cons] at h
+      have i1 := step_count hst hi
+      rcases h with h | h
+      · rw [h]; exact i1
+      · exact ih s1 i1 s' h
 
 end Hub.Model
